@@ -707,6 +707,34 @@ static void case_pes(struct vh_rng *r)
         check_recovered_au("pes_decaps", out, &g, &a[i], has_opt, true, i);
         if (hd.packet_length && !(out->recs[out->n - 1].flags & TSL_F_END))
             vh_diag("c15:pes_decaps:end-flag", "bounded PES: last chunk without end flag");
+        /* a padding_stream PES (stream_id 0xBE: no optional header, stuffing
+         * octets) between two PES packets of the stream, cut into TS payloads
+         * like them: it carries no payload of the elementary stream */
+        if (vh_chance(r, 1, 3)) {
+            size_t plen = vh_chance(r, 1, 2) ? vh_below(r, 179) : 179 + vh_below(r, 1800);
+            uint8_t *pad = malloc(6 + plen);
+            pad[0] = 0; pad[1] = 0; pad[2] = 1; pad[3] = 0xbe; pad[4] = (uint8_t)(plen >> 8); pad[5] = (uint8_t)plen;
+            memset(pad + 6, 0xff, plen);
+            size_t nbefore = out->n, poff = 0;
+            bool pfirst = true;
+            while (poff < 6 + plen) {
+                size_t c = vh_chance(r, 2, 3) ? 184 : 1 + vh_below(r, 184);
+                if (c > 6 + plen - poff) c = 6 + plen - poff;
+                struct uref *u = tsl_uref_from_bytes_rnd(r, pad + poff, c);
+                if (pfirst) uref_block_set_start(u);
+                pfirst = false;
+                upipe_input(dec, u, NULL);
+                poff += c;
+            }
+            free(pad);
+            if (out->n != nbefore) {
+                size_t got = 0;
+                for (size_t k = nbefore; k < out->n; k++) got += out->recs[k].size;
+                vh_violation("c15:pes_decaps:padding-stream-output-as-payload", "a padding_stream PES of %zu stuffing octets after AU %d came out as %zu chunks (%zu octets) of elementary stream", plen, i, out->n - nbefore, got);
+            }
+            VH_COUNT("pes.padding_packets");
+            if (plen > 178) VH_COUNT("pes.padding_packets_spanning_payloads");
+        }
     }
     tsl_release(&enc);
     tsl_release(&dec);
